@@ -12,6 +12,8 @@ CMD_DOC = {
     101: "decode through an entry point (0: m.Decode in a buffer of given spare capacity; 1: Decode(data,m)/Write/UnmarshalBinary/GobDecode/CloneTo onto a previous buffer; 2: ReadFrom): status, fields, attribute views with offsets, IsMessage",
     201: "library Decode projected on the RFC parse (accept flag, method, class, length, tid, (type,value) list) vs the Coq Spec parser rfc_parse",
     202: "Get / Contains / ForEach (callback failing at its k-th call) on the decoded message",
+    301: "history of building operations (start state, then Build/WriteHeader/Encode/Add/SetType/tid setter/typed, integrity, fingerprint setters/WriteAttributes/Reset/Decode): status, refusal reason, len(Raw) and a digest of the whole projected state after every step; full state at the end",
+    1801: "pooled HMAC history (acquire(key)/write/sum/reset/put on a recycled object): every Sum result",
     1901: "MessageType.Value on one (method, class)",
     1902: "MessageType.ReadValue on one value",
     1903: "MessageType.Value table slice: 256 methods x 4 classes",
@@ -44,6 +46,45 @@ PROPS = {
         "rule": DECODE_RULE + "each input goes through the library's Decode and through the extracted Spec parser rfc_parse (structurally independent of the Go loop); accepted messages additionally through Get/Contains/ForEach with a callback failing at visit 0..4, incl. 1500 messages with repeated attribute types. non-trivial = every case; distinct by literal case line",
         "explanation": "theorems: decode accepts iff the RFC grammar tlv_seq (iff rfc_parse), every field equals the RFC parse, unique parse, Get=first, Contains=membership, ForEach for every callback; the correspondence compares the library directly with the Spec (oracle B), C01 compares it with the Impl-model",
         "assumptions": ["same as C01"],
+    },
+    "C03": {
+        "level": "proof",
+        "pinned": [],
+        "coq_sample": 60,
+        "coq_sample_maxlen": 2500,
+        "rule": "random histories (1..15 operations) of building operations over {Build(0..5 setters), WriteHeader, Encode, Add(any type, value length 0..3000 incl. every residue mod 4), SetType(method 0..0xFFF, 4 classes), transaction-ID setter, every typed setter, MESSAGE-INTEGRITY (key 0..200 bytes), FINGERPRINT} from 5 kinds of start (new(Message), New(), decoded message, decoded message with trailing bytes, poisoned re-used buffer), plus EXHAUSTIVELY all histories of <= 3 operations over a 14-operation alphabet (value lengths 0..5) from 3 start states; after every step the whole projected state is compared with the model (digest) and the implementation's state is checked by the Go oracle wellFormed (cookie, header length, multiple of 4, zero padding, struct = TLV walk, re-decode equality, Equal). non-trivial = every history; distinct by literal case line",
+        "explanation": "theorems: Build from ANY previous state is canonical (C03_build_canonical), each building setter preserves canonical and is refined by the Impl-model, canonical messages decode to themselves, decode-then-encode is canonical; three refutations with vm_compute witnesses (0x8020 alias, Equal nil-vs-empty on the pinned tree, decoder tolerances surviving in Raw)",
+        "assumptions": ["slice model as in C01", "MI uses the model's SHA-1/HMAC (validated against Go by C18/C04)", "attribute views are snapshots (value semantics): sound for the listed operations because every attribute is rewritten in place at its own offset (DESIGN §4 C03)"],
+    },
+    "C08": {
+        "level": "proof",
+        "pinned": [],
+        "coq_sample": 60,
+        "coq_sample_maxlen": 2500,
+        "rule": "chains of 2..8 uses (Build with random setters, Decode of random valid/mutated messages, Encode, Add, typed setters, Reset, WriteAttributes, WriteHeader) on buffers pre-filled with a poison pattern (0xFF / random) of assorted capacity and length, sizes in all orders; every chain through the model (stale bytes modelled) and, in the implementation, against a FRESH TWIN with the same Type/TransactionID for the last use (metamorphic); caller buffers overwritten with 0xA5 after Add/Build/Decode; CloneTo/MarshalBinary/GobEncode results re-read after mutating the source. non-trivial = every chain; distinct by literal case line",
+        "explanation": "theorems: Build / Decode(data,m) / Add give results independent of ANY previous state (capacity, stale bytes, attributes, length); copy semantics and aliasing are runtime monitors, not proved",
+        "assumptions": ["slice model as in C01"],
+    },
+    "C09": {
+        "level": "proof",
+        "pinned": [301],
+        "tagsets": [["verif"], ["verif", "debug"]],
+        "coq_sample": 60,
+        "coq_sample_maxlen": 2500,
+        "rule": "every text setter x EVERY length 0..limit+300; ERROR-CODE reason lengths 0..1063; ALL codes 0..999 through the default-reason setter and the explicit setter; IP lengths 0..20 x 6 XOR and 6 mapped attribute types; each after a random preceding Build; plus Build histories with 1..7 random setters (incl. MESSAGE-INTEGRITY after FINGERPRINT) followed by single setters; refusal reason and full state compared with the model after every step, before/after snapshot around every refusing setter; release and debug tags. non-trivial = every case; distinct by literal case line",
+        "explanation": "theorems: each setter refuses iff (and for the reason) the property names; Add never refuses; Build returns the first refusing setter's error",
+        "assumptions": ["error values are projected to the four reasons the property names (overflow, bad IP, no default reason, FINGERPRINT before integrity) through IsAttrSizeOverflow / errors.Is"],
+    },
+    "C18": {
+        "level": "proof",
+        "pinned": [1801],
+        "tagsets_thorough": [["verif"], ["verif", "race"]],
+        "coq_sample": 25,
+        "coq_sample_maxlen": 1800,
+        "rule": "histories acquire(key)·(write|sum|reset)*·sum·[reset]·put repeated 1..4 times on the recycled object, SHA-1 and SHA-256, keys 0..300 bytes on both sides of the 64-byte block, messages 0..1200 bytes in random chunks with block-boundary sizes; every Sum compared with the Coq model and with Go's crypto/hmac; plus 16 goroutines x 300 (thorough 3000, under -race) concurrent pooled histories against crypto/hmac. non-trivial = every history; distinct by literal case line",
+        "explanation": "theorem parametric in the hash: from ANY previous state of the pooled object, every Sum = RFC 2104; instantiated with the Gallina SHA-1 / SHA-256 (validated against crypto/sha1, crypto/sha256 by this correspondence)",
+        "assumptions": ["hash objects modelled as 'bytes written since reset' (Write appends, Sum does not disturb, Reset clears, Marshal/Unmarshal = snapshot/restore)", "sync.Pool hands an object to one goroutine at a time (its contract; exercised under -race in the thorough tier)"],
+        "trusted_extra": ["/repo hook verif_hooks.go (build tag verif): re-exports internal/hmac Acquire/Put/New/Equal, add-only"],
     },
     "C19": {
         "level": "proof",
